@@ -299,8 +299,9 @@ impl<R: Rng + Send> Multiplexor<R> {
             if let Some(s) = stream {
                 return Ok(s);
             }
-            // For testing purposes. Make sure the previous flow ID is gone
-            debug_assert!(!self.flows.read().contains_key(&flow_id));
+            // The rejected flow ID is gone from the map at this point, but another
+            // concurrent request on this `Multiplexor` may already have drawn it again,
+            // so its absence cannot be asserted here.
         }
         Err(Error::FlowIdRejected)
     }
